@@ -173,14 +173,7 @@ class Peer(object):
         ''' Deliver everything and let the endpoint run to quiescence; collect its output. '''
         from vlib import ref9174 as r
         world = self.world
-        for _ in range(400):
-            moved = world.tx_pipe.deliver()
-            if world.real.sock.closed:
-                break
-            ran = world.real.ctx.iterate()
-            if not moved and not ran:
-                break
-        world.rx_pipe.deliver()
+        world.settle()
         data = world.real_wire()
         msgs, used, status = r.parse_stream(data)
         new = msgs[len(self.rx_msgs):]
